@@ -122,6 +122,15 @@ def run(ctx):
             "an error return is reachable after the key has been modified (a failed puncture must leave the key unchanged): %s" % bade, at)
     ctx.floor("C10.R3", 4)
 
+    descent_rules(ctx, "C10.R4")
+    ctx.floor("C10.R4", 5)
+    # ---- R5 = C11.R2: a successful puncture removes the covering node (else the input stays evaluable) -------
+    from .c11 import covering_removed
+    covering_removed(ctx, "C10.R5")
+    ctx.floor("C10.R5", 2)
+
+
+def descent_rules(ctx, rule):
     # ---- R4 one lookup, same descent -------------------------------------------------------------------------
     sides = {}
     for root in (EVAL, PUNC):
@@ -131,12 +140,12 @@ def run(ctx):
         sp = Q.calls(eng, "split_at")
         at = ctx.fn(root).loc
         if len(fp) != 1 or not be or not sp:
-            ctx.add("C10.R4", root + "#shape", False, "expected one find_prefix, bit_eval and split_at (found %d/%d/%d)" % (len(fp), len(be), len(sp)), at)
+            ctx.add(rule, root + "#shape", False, "expected one find_prefix, bit_eval and split_at (found %d/%d/%d)" % (len(fp), len(be), len(sp)), at)
             continue
         okp = Q.variant(fp[0]["result"], 0)
         P = okp[2][0] if okp and okp[2] else None
         if P is None:
-            ctx.add("C10.R4", root + "#lookup-result", False, "find_prefix has no Ok payload", at)
+            ctx.add(rule, root + "#lookup-result", False, "find_prefix has no Ok payload", at)
             continue
         from ..sym import field
         bits = field(field(P, 0), 0)
@@ -144,7 +153,7 @@ def run(ctx):
         off_ok = all(e["argv"][1].op == "len" and e["argv"][1].args[0] is bits for e in sp)
         seed_ok = all(e["argv"][2] is seed for e in be)
         desc_ok = all(e["argv"][1].op == "slice" and e["argv"][1].args[1].op == "len" and e["argv"][1].args[1].args[0] is bits for e in be)
-        ctx.add("C10.R4", root + "#descent-from-covering-node", off_ok and seed_ok and desc_ok,
+        ctx.add(rule, root + "#descent-from-covering-node", off_ok and seed_ok and desc_ok,
                 "values must be derived from the covering node's seed over exactly the bits after the covering prefix "
                 "(split offset = len of the found prefix: %s; seed is the found seed: %s; descent over the tail: %s); offsets %s"
                 % (off_ok, seed_ok, desc_ok, [S(e["argv"][1], 4) for e in sp]), sp[0]["at"],
@@ -152,17 +161,12 @@ def run(ctx):
         sides[root] = (fp[0]["callee"], be[0]["callee"], [a for a in fp[0]["argv"][:1]])
         # lookup is over the whole key and the input's bits
         inp = Q.params(Q.leaves(fp[0]["argv"][1]))
-        ctx.add("C10.R4", root + "#lookup-on-input-bits", "input" in inp or any(p.startswith("input") for p in inp),
+        ctx.add(rule, root + "#lookup-on-input-bits", "input" in inp or any(p.startswith("input") for p in inp),
                 "the prefix lookup must be made on the bits of the input; depends on %s" % sorted(inp), fp[0]["at"])
     if len(sides) == 2:
-        ctx.add("C10.R4", "eval~puncture#same-lookup-and-descent", sides[EVAL][:2] == sides[PUNC][:2],
+        ctx.add(rule, "eval~puncture#same-lookup-and-descent", sides[EVAL][:2] == sides[PUNC][:2],
                 "eval and puncture must use the same lookup and PRG-descent functions: %s vs %s" % (sides[EVAL][:2], sides[PUNC][:2]),
                 ctx.fn(PUNC).loc)
-    ctx.floor("C10.R4", 5)
-    # ---- R5 = C11.R2: a successful puncture removes the covering node (else the input stays evaluable) -------
-    from .c11 import covering_removed
-    covering_removed(ctx, "C10.R5")
-    ctx.floor("C10.R5", 2)
 
 
 def writers(ctx, rule, cfg):
